@@ -452,6 +452,17 @@ func (h *Hub) topicUnreg(sess *Session, topic string, msg *ClientComMessage, rea
 		} else {
 			// Case 1.2: topic is offline.
 
+			if msg == nil || sess == nil {
+				// Internal request to delete an abandoned p2p topic (both subscriptions are gone) which has
+				// been unloaded before the request was processed: there is nobody to reply to.
+				if topicCat(topic) == types.TopicCatP2P {
+					if subs, err := store.Topics.GetSubs(topic, nil); err == nil && len(subs) == 0 {
+						store.Topics.Delete(topic, false, true)
+					}
+				}
+				return nil
+			}
+
 			// Is user a channel subscriber? Use chnABC instead of grpABC and get only this user's subscription.
 			var opts *types.QueryOpt
 			if types.IsChannel(msg.Original) {
